@@ -29,11 +29,13 @@ SerialJudge(e) ==
   ELSE IF e.form = "strings-exact"
   \* read back without re-simplification: the rows are the printed (4 significant digit) rows, as a multiset
   THEN (IF ~SameItf(e.orig, e.back) THEN <<"violation", "strings:interface">>
-        ELSE IF ~e.ok THEN <<"unjudged", "magnitude">>
+        ELSE IF ~e.eqok THEN <<"unjudged", "magnitude">>           \* a number does not fit 32 bits even for comparison
         ELSE IF BagEqRows(e.orig.a, e.back.a) /\ BagEqRows(e.orig.g, e.back.g) THEN <<"ok", "same-rows">>
         ELSE <<"violation", "strings:rows">>)
   ELSE \* read back through a path that re-simplifies (file reader, from_dict): same interface and the same meaning
        (IF ~SameItfSets(e.orig, e.back) THEN <<"violation", e.form \o ":interface">>
+        ELSE IF e.eqok /\ BagEqRows(e.orig.a, e.back.a) /\ BagEqRows(e.orig.g, e.back.g) THEN <<"ok", "same-rows">>
+        ELSE IF e.form = "file-machine" /\ e.bits THEN <<"ok", "bit-identical">>      \* driver: every number bit-equal, same rows
         ELSE IF ~e.ok THEN <<"unjudged", "magnitude">>
         ELSE DecideAll(EquivClauses(e.back, e.orig), e.names, e.hints, e.g, e.form))
 
